@@ -108,7 +108,7 @@ end Rule
 /-! ## T19.3 the rate -/
 
 /-- T19.3 for `t ≥ 0`, `T1 > 0` the rate `p = (1 - exp(-t/T1))/4` satisfies
-`0 ≤ p < 1/4`, hence `3p < 1`; it is 0 exactly at `t = 0` side and grows with `t`. -/
+`0 ≤ p < 1/4`, hence `3p < 1`. -/
 theorem rate_in_range (t T1 : ℝ) (ht : 0 ≤ t) (hT : 0 < T1) :
     rate Real.exp t T1 = (1 - Real.exp (-t / T1)) / 4 ∧
     0 ≤ rate Real.exp t T1 ∧ rate Real.exp t T1 < 1 / 4 ∧ 3 * rate Real.exp t T1 < 1 := by
@@ -116,6 +116,7 @@ theorem rate_in_range (t T1 : ℝ) (ht : 0 ≤ t) (hT : 0 < T1) :
   have h2 := rate_lt_quarter t T1
   exact ⟨rfl, h1, h2, by linarith⟩
 
+/-- the rate is 0 at `t = 0` and strictly increasing in the idle time -/
 theorem rate_monotone (t t' T1 : ℝ) (hT : 0 < T1) :
     rate Real.exp 0 T1 = 0 ∧ (t < t' → rate Real.exp t T1 < rate Real.exp t' T1) :=
   ⟨rate_zero T1, fun h => rate_strictMono t t' T1 h hT⟩
@@ -135,14 +136,6 @@ def StepLaw (T1 : ℝ) (num : Nat) (last : ℝ) (e : Env ℝ) (o : Op) (obs : St
     (pick = [.pauli .Y num] ↔ p ≤ e.x ∧ e.x < 2 * p) ∧
     (pick = [.pauli .Z num] ↔ 2 * p ≤ e.x ∧ e.x < 3 * p) ∧
     (pick = [] ↔ 3 * p ≤ e.x)
-
-theorem noiseCalls_pauli_iff (num : Nat) (s : Option Pauli) (P : Pauli) :
-    noiseCalls num (.applied s) = [.pauli P num] ↔ s = some P := by
-  cases s <;> simp [noiseCalls]
-
-theorem noiseCalls_nil_iff (num : Nat) (s : Option Pauli) :
-    noiseCalls num (.applied s) = [] ↔ s = none := by
-  cases s <;> simp [noiseCalls]
 
 /-- T19.2+3+4 combined, one operation: noise enabled, `T1 > 0`, clock not behind
 the stored reading.  Holds for every operation kind, every draw, every idle time. -/
